@@ -46,7 +46,7 @@ CLAIMED = {
  "C08": ("exploration",
    "deterministic simulation with storage-corruption, cancellation and allocation-failure faults and a simulated clock: seeded hostile (chain, parameters, body) cases incl. JPEG and JBIG2 streams forged marker by marker / segment by segment, bit flips/splices/truncation, early Close at read k, drawn small membudget, testing/synctest bubble for exact goroutine-leak detection, decode time measured as a deterministic work counter inserted into internal/filter/** by a build overlay",
    "Seeded search over hostile decoder inputs and consumer behaviours; oracles: no panic, every error IsMalformed, simulated time (work ticks) <= K*(per-stream budget + bytes produced), termination (step caps + wall-clock watchdog confirmed in a fresh process), allocation proxy, CCITT geometry cap, and no goroutine left durably blocked once the reader is closed or DecodeStream has failed (exact, via the synctest bubble).",
-   "Allocation is bounded by a TotalAlloc proxy, not by instrumenting the allocator; the proportionality constants K of the work bound (24 DCT, 512 JBIG2, 64 others) are calibrated on the unchanged tree and exclude only work that grows without matching input, budget or output; the work bound is applied only when no stage before the last one can expand; the DCT/JBIG2 geometry caps are too large to drain per run.",
+   "Allocation is bounded by a TotalAlloc proxy, not by instrumenting the allocator; the constants of the work bound (K = 24 DCT and 512 JBIG2 relative to budget + output; 256 ticks per byte in and out + 64 Mi for the byte-oriented decoders) are calibrated on the unchanged tree and exclude only work that grows without matching input, budget or output; the work bound is applied only when no stage before the last one can expand; the DCT/JBIG2 geometry caps are too large to drain per run.",
    "DESIGN.md section 4 C08"),
 
  "C18": ("exploration",
